@@ -1,5 +1,6 @@
 #![allow(dead_code)]
 mod c04;
+mod c09;
 mod c11;
 mod c12;
 mod c16;
@@ -46,6 +47,13 @@ fn props() -> Vec<Prop> {
         thorough_cases: 600,
         gen: c04::gen_case,
         run: c04::run_case,
+    }, Prop {
+        id: "C09",
+        rule: "exhaustive: every 0 <= m <= n <= N (quick N=34, thorough N=60; {0,0} excluded as a documented syntax error) at rule, terminal and regex level with every count 0..n+3, the unbounded forms {m,}, *, +, ?; JSON minItems/maxItems, minLength/maxLength with 1-4 byte characters and escapes, min/maxProperties, prefixItems, over a grid of (m,n); distinct non-trivial = distinct (level, m, n)",
+        quick_cases: 39,
+        thorough_cases: 65,
+        gen: c09::gen_case,
+        run: c09::run_case,
     }, Prop {
         id: "C11",
         rule: "case = (grammar: hand-written family or random Lark grammar; vocabulary: single-byte / synthetic multi-byte; seeded history of commits, read-only queries, invalidations, clones, rollbacks, resets); at every state the mask is compared with a second computation, with the one after invalidate_bias_cache and with a fresh replay; distinct non-trivial = distinct (grammar, committed tokens) with a mask that is neither a single token nor the whole vocabulary",
